@@ -114,7 +114,7 @@ func runProperty(prop, tier, only string, seed, workers int, verbose, noReplay b
 	if only != "" {
 		var f []HarnessSpec
 		for _, s := range specs {
-			if strings.Contains(s.Func+":"+s.Asm+":"+s.T3, only) {
+			if strings.Contains(s.Func+":"+s.Asm+":"+s.T3+":"+s.X86, only) {
 				f = append(f, s)
 			}
 		}
@@ -137,10 +137,14 @@ func runProperty(prop, tier, only string, seed, workers int, verbose, noReplay b
 	// group by load configuration
 	type loadKey struct{ goarch string }
 	groups := map[loadKey][]HarnessSpec{}
-	var t3specs []HarnessSpec
+	var t3specs, x86specs []HarnessSpec
 	for _, s := range specs {
 		if s.Asm != "" {
 			t3specs = append(t3specs, s)
+			continue
+		}
+		if s.X86 != "" {
+			x86specs = append(x86specs, s)
 			continue
 		}
 		k := loadKey{s.GOARCH}
@@ -267,6 +271,33 @@ func runProperty(prop, tier, only string, seed, workers int, verbose, noReplay b
 					fmt.Printf("  VACUOUS %s: cover point %q not reached\n", name, c)
 					broken++
 				}
+			}
+		}
+	}
+
+	for _, s := range x86specs {
+		r, o, err := runX86(s, tier, propKnown, verbose)
+		if err != nil {
+			fmt.Fprintln(os.Stderr, "BROKEN:", err)
+			broken++
+			continue
+		}
+		results = append(results, r)
+		resSpecs = append(resSpecs, s)
+		name := "x86:" + s.X86
+		fmt.Printf("harness %-40s cases=%d paths=%d instructions=%d violations=%d queries=%d (sat %d unsat %d unknown %d) solver=%.1fs wall=%.1fs\n",
+			name, o.Cases, o.Paths, o.Instructions, len(o.Violations), o.Queries, o.Sat, o.Unsat, o.Unknown, o.SolverS, r.WallS)
+		for m, n := range r.Problems {
+			fmt.Printf("  INCONCLUSIVE %s: %s (x%d)\n", name, m, n)
+		}
+		if r.NotEncoded > 0 || o.Unknown > 0 {
+			fmt.Printf("  INCOMPLETE %s: incomplete=%d solver-unknown=%d: the stated bound was not fully explored\n", name, r.NotEncoded, o.Unknown)
+			broken++
+		}
+		for _, c := range s.Covers {
+			if !r.Covers[c] {
+				fmt.Printf("  VACUOUS %s: cover point %q not reached\n", name, c)
+				broken++
 			}
 		}
 	}
@@ -600,6 +631,9 @@ func writeEvidence(prop, tier string, seed int, specs []HarnessSpec, results []*
 		if s.Asm != "" {
 			bk = s.Func + ":" + s.Asm + ":" + s.T3
 		}
+		if s.X86 != "" {
+			bk = "x86:" + s.X86
+		}
 		bounds[bk] = s.Bounds
 		assumptions = append(assumptions, s.Assumes...)
 		coversTot += len(s.Covers)
@@ -615,7 +649,7 @@ func writeEvidence(prop, tier string, seed int, specs []HarnessSpec, results []*
 			disch++
 		}
 		perH = append(perH, map[string]interface{}{
-			"harness": s.Func + map[bool]string{true: ":" + s.Asm + ":" + s.T3, false: ""}[s.Asm != ""], "what": s.Desc, "bounds": s.Bounds, "paths": r.Paths, "paths_completed": r.PathsDone,
+			"harness": s.Func + map[bool]string{true: ":" + s.Asm + ":" + s.T3, false: ""}[s.Asm != ""] + map[bool]string{true: ":x86:" + s.X86, false: ""}[s.X86 != ""], "what": s.Desc, "bounds": s.Bounds, "paths": r.Paths, "paths_completed": r.PathsDone,
 			"paths_infeasible": r.Infeasible, "paths_ended_in_panic_or_violation": r.Ended, "not_encoded": r.NotEncoded,
 			"unwind_exceeded": r.Budget, "queries": r.Stats.Queries, "solver_s": r.Stats.SolveTime.Seconds(),
 			"wall_s": r.WallS, "max_decisions_on_a_path": r.MaxDecision, "truncated": r.Truncated, "notes": r.Notes,
